@@ -9,10 +9,15 @@ Case kinds
        table; oracle: a value the left type accepts whose serialisation the right type rejects
        although `is_subtype` said yes.
   acc  pydantic validation of a single-field schema vs model `decode` on a boundary corpus.
-  ovr  generated class families (grandparent / parent / child, nested schemas, decorators):
-       class construction + `check_types` vs model; oracle: if `check_types` lets the family
-       through, every generated instance of every reachable class must be accepted by its
-       base class (child-accepts / parent-rejects witness otherwise).
+  ovr  generated class families (chains of 2-4 classes, each a plugin (inner `Plugin` section)
+       or a plain intermediate class; every class below the top may re-annotate the inherited
+       field - declared with @override or not -, add required / Optional / defaulted fields and
+       constants - also below a parent that forbids extras -, change the extra policy; nested
+       schemas, decorators): class construction + `check_types` vs model; oracle: if
+       `check_types` lets the family through, every generated instance of every reachable
+       class must be accepted by each of its ancestors (child-accepts / ancestor-rejects
+       witness otherwise); only fields whose override was explicitly declared by the class or
+       by a class between it and that ancestor are exempt.
   anc  installed schemas: every generated instance (json_dict()) parsed by every ancestor.
 """
 import itertools
@@ -38,6 +43,7 @@ LEAN = dict(
 
 F12_SIG = "C13:phantom-subclass-non-included-pattern:QualHashsumStr<HashsumStr"
 CONST_FORBID_SIG = "C13:const-field-under-forbidding-parent"
+NEW_FIELD_FORBID_SIG = "C13:new-field-under-forbidding-parent"
 
 
 # ----------------------------------------------------------------------------- real code helpers
@@ -168,38 +174,53 @@ def _impl_ovr(case):
             rng = random.Random(case.get("seed", 0))
             reach = _reachable(fam, case["root"])
             for name in reach:
-                cd = G.get_cd(fam, name)
-                if not cd["parent"]:
+                chain = _ancestor_chain(fam, name)  # nearest first
+                if not chain:
                     continue
-                child, parent = F.classes[name], F.classes[cd["parent"]]
-                declared = set(cd.get("overrides", []))
-                if cd.get("const_override"):
-                    continue  # explicitly declared replacement of a field by a constant
+                child = F.classes[name]
                 tags.append("child-parent-checked")
-                if declared:
-                    tags.append("declared-override")
-                n_ok = 0
+                if len(chain) > 1:
+                    tags.append("child-grandparent-checked")
+                if not G.get_cd(fam, chain[0]).get("plugin") and any(G.get_cd(fam, a).get("plugin") for a in chain[1:]):
+                    tags.append("unregistered-intermediate")
+                insts = []
                 for i in range(case.get("n_inst", 12)):
                     inp = G.gen_obj(rng, fam, name, 2)
                     try:
                         o = child.parse_obj(json.loads(json.dumps(inp)))
                     except (ValidationError, Exception):
                         continue
-                    n_ok += 1
                     jd = o.json_dict()
                     if C12._has_nan(jd):
                         continue
-                    try:
-                        parent.parse_obj(jd)
-                    except Exception as e:
-                        bad = _bad_fields(e)
-                        if bad and bad <= declared:
-                            continue  # only explicitly declared overrides are affected
-                        oracle.append(dict(kind="child-instance-rejected-by-parent", child=name, parent=cd["parent"], input=inp, serialised=jd,
-                                           fields=sorted(bad), error=("%s: %s" % (type(e).__name__, e))[:300], fam=fam, root=case["root"]))
-                        break
-                if n_ok:
+                    insts.append((inp, jd))
+                if insts:
                     tags.append("child-instances")
+                # every ancestor, nearest first; the fields whose incompatible override was explicitly
+                # declared (by the class itself or by a class between it and the ancestor) are exempt
+                declared, below, hit = set(), name, False
+                for anc in chain:
+                    cdb = G.get_cd(fam, below)
+                    if cdb.get("const_override"):
+                        break  # explicitly declared replacement of a field by a constant
+                    declared |= set(cdb.get("overrides", []))
+                    if declared:
+                        tags.append("declared-override")
+                    parent = F.classes[anc]
+                    for inp, jd in insts:
+                        try:
+                            parent.parse_obj(json.loads(json.dumps(jd)))
+                        except Exception as e:
+                            bad = _bad_fields(e)
+                            if bad and bad <= declared:
+                                continue  # only explicitly declared overrides are affected
+                            oracle.append(dict(kind="child-instance-rejected-by-parent", child=name, parent=anc, input=inp, serialised=jd,
+                                               fields=sorted(bad), error=("%s: %s" % (type(e).__name__, e))[:300], fam=fam, root=case["root"]))
+                            hit = True
+                            break
+                    if hit:
+                        break
+                    below = anc
         # field level pairs (diagnostic tag only)
     finally:
         F.close()
@@ -211,6 +232,15 @@ def _bad_fields(e):
         return {str(er["loc"][0]) for er in e.errors() if er.get("loc")} - {"__root__"}
     except Exception:
         return set()
+
+
+def _ancestor_chain(fam, name):
+    """Proper ancestors of a family class, nearest first."""
+    out, p = [], G.get_cd(fam, name)["parent"]
+    while p and p not in out:
+        out.append(p)
+        p = G.get_cd(fam, p)["parent"]
+    return out
 
 
 def _mentions(ty, acc):
@@ -396,6 +426,11 @@ def narrow(rng, ty, depth=2):
         return ["union", alts]
     if k in ("list", "set"):
         return [k, narrow(rng, ty[1], depth - 1)]
+    if (k in G.STRLIKE or k in ("int", "bool")) and r < 0.25:
+        # a Literal over a plain / constrained type: values from the type's boundary corpus
+        # (for strings that includes the empty and the blank string)
+        pool = G.LIT_STR if k in G.STRLIKE else (G.LIT_INT if k == "int" else [True, False])
+        return ["lit", rng.sample(pool, rng.randrange(1, min(3, len(pool)) + 1))]
     if k == "nes":
         return [rng.choice(["nes", "mime", "hash", "qhash"])]
     if k == "hash":
@@ -502,54 +537,86 @@ def gen_acc_cases(ctx):
     return cases
 
 
+def _cd(name, parent, **kw):
+    d = dict(name=name, parent=parent, extra=None, fields=[], consts=[], overrides=[], mandatory=[])
+    d.update(kw)
+    return d
+
+
+def _new_field(rng, fam, fname):
+    """A field the bases do not have: required, Optional, or with a default value."""
+    ty = G.rand_field_type(rng, 1, MODELS)
+    r = rng.random()
+    dflt = None
+    if r < 0.25:
+        ty = ["opt", G.unopt(ty)]
+    elif r < 0.55 and '"model"' not in json.dumps(ty):
+        v = G.gen_json(rng, G.unopt(ty), fam, 1)
+        if v is not G.OMIT and v is not None:
+            dflt = {"v": v}
+    return [fname, ty, dflt]
+
+
+def _reannotate(rng, y, mode):
+    if mode == "narrow":
+        return narrow(rng, y)
+    if mode == "widen":
+        return widen(rng, y)
+    if mode == "same":
+        return y
+    return G.rand_field_type(rng, rng.randrange(0, 3), MODELS)
+
+
 def rand_ovr_case(rng):
-    """Grandparent / parent / child with an overridden field, nested classes, decorators."""
+    """Chain of 2-4 schema classes (some of them plugins, some plain intermediate classes). Every
+    class below the top may re-annotate the inherited field `f` (narrower / wider / same /
+    unrelated type, relative to what it inherits; declared with @override or not), add new
+    fields (required / Optional / defaulted, also below a parent that forbids extras), constants,
+    change the extra policy; nested classes, decorators."""
     fam = base_table()
     y = G.rand_field_type(rng, rng.randrange(0, 3), MODELS)
-    mode = rng.choice(["narrow", "narrow", "widen", "widen", "same", "random", "mandatory"])
-    if mode == "narrow":
-        x = narrow(rng, y)
-    elif mode == "widen":
-        x = widen(rng, y)
-    elif mode == "same":
-        x = y
-    elif mode == "mandatory":
+    mode = rng.choice(["narrow", "narrow", "widen", "widen", "same", "random", "mandatory", "inherit"])
+    if mode == "mandatory":
         y = ["opt", G.unopt(y)]
-        x = None
-    else:
-        x = G.rand_field_type(rng, rng.randrange(0, 3), MODELS)
-    declared = rng.random() < 0.2
-    layers = rng.choice([1, 1, 2, 3])
+    layers = rng.choice([1, 1, 2, 2, 3])
     other = G.rand_field_type(rng, 1, MODELS)
-    top = dict(name="Ga", parent=None, extra=rng.choice([None, None, "allow", "ignore", "forbid"]), fields=[["f", y, None], ["g", other, None]], consts=[], overrides=[], mandatory=[])
+    top = _cd("Ga", None, extra=rng.choice([None, None, "allow", "ignore", "forbid"]), fields=[["f", y, None], ["g", other, None]], plugin=rng.random() < 0.6)
     if rng.random() < 0.3:
         top["consts"].append(["@type", "Top"])
     fam.append(top)
-    prev = "Ga"
+    prev, cur_f = "Ga", y
     for i in range(layers - 1):
         name = ["Pa", "Pb"][i]
-        mid = dict(name=name, parent=prev, extra=None, fields=[], consts=[], overrides=[], mandatory=[])
-        if G.eff_extra(fam, prev) != "forbid" and rng.random() < 0.5:
-            mid["fields"].append(["m%d" % i, G.rand_field_type(rng, 1, MODELS), None])
+        mid = _cd(name, prev, plugin=rng.random() < 0.5)
+        forbid = G.eff_extra(fam, prev) == "forbid"
+        if rng.random() < 0.45:
+            # the intermediate class re-annotates the field itself
+            cur_f = _reannotate(rng, cur_f, rng.choice(["narrow", "narrow", "narrow", "widen", "widen", "same", "random"]))
+            mid["fields"].append(["f", cur_f, None])
+            if rng.random() < 0.35:
+                mid["overrides"].append("f")
+        if rng.random() < (0.25 if forbid else 0.5):
+            mid["fields"].append(_new_field(rng, fam, "m%d" % i))
         if rng.random() < 0.25:
             mid["extra"] = rng.choice(["allow", "ignore", "forbid"])
         fam.append(mid)
         prev = name
-    child = dict(name="Ch", parent=prev, extra=rng.choice([None, None, None, "allow", "ignore", "forbid"]), fields=[], consts=[], overrides=[], mandatory=[])
-    if x is None:
+    forbid = G.eff_extra(fam, prev) == "forbid"
+    child = _cd("Ch", prev, extra=rng.choice([None, None, None, "allow", "ignore", "forbid"]), plugin=rng.random() < 0.85)
+    if mode == "mandatory":
         child["mandatory"] = ["f"]
-    else:
-        child["fields"].append(["f", x, None])
-        if declared:
+    elif mode != "inherit":
+        child["fields"].append(["f", _reannotate(rng, cur_f, mode), None])
+        if rng.random() < 0.2:
             child["overrides"].append("f")
     r = rng.random()
     if r < 0.08:
         child["overrides"].append("nonexistent")  # no parent field to override
     elif r < 0.16:
         child["overrides"].append("g")  # claimed but missing override
-    if G.eff_extra(fam, prev) != "forbid" and rng.random() < 0.4:
-        child["fields"].append(["n", G.rand_field_type(rng, 1, MODELS), None])
-    if rng.random() < 0.2 and G.eff_extra(fam, prev) != "forbid":
+    if rng.random() < (0.3 if forbid else 0.4):
+        child["fields"].append(_new_field(rng, fam, "n"))
+    if rng.random() < (0.08 if forbid else 0.2):
         child["consts"].append(["@type", "Child"])
     if rng.random() < 0.05:
         child["fields"].append(["@type" if top["consts"] else "g", ["str"], None])
@@ -558,7 +625,7 @@ def rand_ovr_case(rng):
     if rng.random() < 0.3:
         # the checked plugin only *uses* the child as a nested schema
         shape = rng.choice([["model", "Ch"], ["opt", ["model", "Ch"]], ["list", ["model", "Ch"]], ["opt", ["union", [["model", "Nd"], ["model", "Ch"]]]]])
-        fam.append(dict(name="Us", parent=None, extra=None, fields=[["h", shape, None]], consts=[], overrides=[], mandatory=[]))
+        fam.append(_cd("Us", None, fields=[["h", shape, None]], plugin=True))
         root = "Us"
     return dict(kind="ovr", fam=fam, root=root, seed=rng.randrange(1 << 30), n_inst=10)
 
@@ -580,6 +647,42 @@ def focused_ovr():
             fam.append(dict(name="Us", parent=None, extra=None, fields=[["h", nested, None]], consts=[], overrides=[], mandatory=[]))
             root = "Us"
         return dict(kind="ovr", fam=fam, root=root, seed=7, n_inst=12)
+
+    def chain(specs, extras=None, plugins=None, nested=None):
+        """Ga <- Pa <- ... <- Ch; specs[i] = None (field untouched) | (type of `f`, declared?) per
+        class, top first; plugins[i] = class i carries a Plugin section."""
+        names = ["Ga", "Pa", "Pb"][:len(specs) - 1] + ["Ch"]
+        fam, prev = base_table(), None
+        for i, (nm, sp) in enumerate(zip(names, specs)):
+            cd = _cd(nm, prev, extra=(extras or {}).get(i))
+            if sp:
+                cd["fields"].append(["f", sp[0], None])
+                if sp[1]:
+                    cd["overrides"].append("f")
+            if plugins is not None:
+                cd["plugin"] = bool(plugins[i])
+            fam.append(cd)
+            prev = nm
+        root = "Ch"
+        if nested:
+            fam.append(_cd("Us", None, fields=[["h", nested, None]], plugin=True))
+            root = "Us"
+        return dict(kind="ovr", fam=fam, root=root, seed=7, n_inst=12)
+
+    # the override sits in an intermediate class (plugin or plain helper class), the checked class
+    # re-annotates, narrows again or leaves the field alone
+    for mid_plugin in (False, True):
+        for last in (None, (I, False), (O(I), False)):
+            out.append(chain([(I, False), (O(I), False), last], plugins=[True, mid_plugin, True]))
+            out.append(chain([(I, False), (["union", [I, S]], False), last], plugins=[True, mid_plugin, True]))
+            out.append(chain([(O(I), False), (I, False), last], plugins=[True, mid_plugin, True]))
+        out.append(chain([(I, False), None, (O(I), False), None], plugins=[True, False, mid_plugin, True]))
+        out.append(chain([(I, False), (O(I), False), None], plugins=[True, mid_plugin, True], nested=O(["model", "Ch"])))
+        # an ancestor declared its incompatible override; the declaration is that class's own
+        for last in (None, (S, False), (O(S), False), (O(S), True), (["union", [S, I]], False), (["lit", ["a"]], False)):
+            out.append(chain([(I, False), (S, True), last], plugins=[True, mid_plugin, True]))
+        out.append(chain([(I, False), (S, True), None, (O(S), False)], plugins=[True, mid_plugin, False, True]))
+        out.append(chain([(["lit", ["a"]], False), (["lit", ["a", "b"]], True), (["lit", ["a", "b", "c"]], False)], plugins=[True, mid_plugin, True]))
 
     for layers in (1, 2, 3):
         out.append(fam3(I, O(I), layers))                        # Optional widening
@@ -605,6 +708,70 @@ def focused_ovr():
     return out
 
 
+NEW_FIELD_KINDS = {
+    "required": ["n", ["str"], None],
+    "optional": ["n", ["opt", ["str"]], None],
+    "default": ["n", ["int"], {"v": 3}],
+    "optional-list": ["n", ["opt", ["list", ["int"]]], None],
+    "default-lit": ["n", ["lit", ["a", "b"]], {"v": "a"}],
+}
+
+
+def extra_policy_space():
+    """Small scope, complete: extra policy of the top class x extra policy of the class that adds
+    something x what it adds (nothing / a required, Optional or defaulted field / a constant) x
+    directly below the top or below a plain intermediate class."""
+    out = []
+    for et in (None, "allow", "ignore", "forbid"):
+        for ec in (None, "allow", "ignore", "forbid"):
+            for kind in [None, "const"] + sorted(NEW_FIELD_KINDS):
+                for layers in (1, 2):
+                    fam = base_table()
+                    fam.append(_cd("Ga", None, extra=et, fields=[["x", ["int"], None]], plugin=True))
+                    prev = "Ga"
+                    if layers == 2:
+                        fam.append(_cd("Pa", "Ga", plugin=False))
+                        prev = "Pa"
+                    ch = _cd("Ch", prev, extra=ec, plugin=True)
+                    if kind == "const":
+                        ch["consts"].append(["k_const", "v"])
+                    elif kind:
+                        ch["fields"].append(json.loads(json.dumps(NEW_FIELD_KINDS[kind])))
+                    fam.append(ch)
+                    out.append(dict(kind="ovr", fam=fam, root="Ch", seed=11, n_inst=8))
+    return out
+
+
+OVR_SPACE_TYPES = [["int"], ["opt", ["int"]], ["str"], ["opt", ["str"]], ["union", [["int"], ["str"]]], ["lit", ["a"]], ["nes"]]
+
+
+def override_chain_space():
+    """Small scope, complete: Ga.f : y; Pa (plugin or plain class) leaves f alone or re-annotates
+    it with m (declared or not); Ch leaves it alone or re-annotates it with x (declared or not);
+    y, m, x from OVR_SPACE_TYPES."""
+    out = []
+    Ts = OVR_SPACE_TYPES
+    mids = [None] + [(m, d) for m in Ts for d in (False, True)]
+    for y in Ts:
+        for mid in mids:
+            for last in mids:
+                if mid is None and last is None:
+                    continue
+                for mid_plugin in (False, True):
+                    fam = base_table()
+                    fam.append(_cd("Ga", None, fields=[["f", y, None]], plugin=True))
+                    pa = _cd("Pa", "Ga", plugin=mid_plugin)
+                    ch = _cd("Ch", "Pa", plugin=True)
+                    for cd, sp in ((pa, mid), (ch, last)):
+                        if sp:
+                            cd["fields"].append(["f", sp[0], None])
+                            if sp[1]:
+                                cd["overrides"].append("f")
+                    fam += [pa, ch]
+                    out.append(dict(kind="ovr", fam=fam, root="Ch", seed=13, n_inst=8))
+    return out
+
+
 def const_forbid_probe():
     """Known situation: constants added below a parent that forbids extra fields."""
     fam = base_table()
@@ -614,8 +781,16 @@ def const_forbid_probe():
 
 
 def gen_ovr_cases(ctx):
-    n = 150 if ctx.quick else 4000
-    return focused_ovr() + [rand_ovr_case(ctx.rng) for _ in range(n)]
+    n = 200 if ctx.quick else 4000
+    pol, chn = extra_policy_space(), override_chain_space()
+    if ctx.quick:
+        # a sample of the two small-scope spaces (the thorough tier runs them completely)
+        pol = ctx.rng.sample(pol, 60)
+        chn = ctx.rng.sample(chn, 120)
+    else:
+        ctx.exhaustive_spaces.append("extra policy of parent x extra policy of child x {no new member, required / Optional / defaulted new field, constant} x {direct child, below a plain intermediate class}: %d families" % len(pol))
+        ctx.exhaustive_spaces.append("three-class chains Ga.f:y <- Pa (plugin or plain class; f untouched or re-annotated m, declared or not) <- Ch (f untouched or re-annotated x, declared or not), y, m, x from %d types: %d families" % (len(OVR_SPACE_TYPES), len(chn)))
+    return focused_ovr() + pol + chn + [rand_ovr_case(ctx.rng) for _ in range(n)]
 
 
 def gen_anc_cases(ctx, names):
@@ -639,9 +814,10 @@ def report_crashes(ctx):
 
 def run(ctx):
     ctx.rule = ("cases: (sub) ordered pairs of grammar types over a class table of nested schemas (related pairs built by narrowing / widening), real is_subtype vs model, "
-                "with a witness search for every accepted pair; (acc) single-field validation on a boundary corpus per type; (ovr) grandparent/parent/child families with an "
-                "overridden field (1-3 layers, declared or not, nested use, decorators, extra policies), class construction + check_types vs model, and instances of every "
-                "reachable child parsed by its parent; (anc) installed schemas parsed by every ancestor. Non-trivial = tagged.")
+                "with a witness search for every accepted pair; (acc) single-field validation on a boundary corpus per type; (ovr) chains of 2-4 classes (plugins and plain "
+                "intermediate classes) in which every class below the top may re-annotate the inherited field (declared or not), add required/Optional/defaulted fields or "
+                "constants (also below a forbidding parent) and change the extra policy, nested use, decorators; class construction + check_types vs model, and instances of every "
+                "reachable class parsed by each of its ancestors; (anc) installed schemas parsed by every ancestor. Non-trivial = tagged.")
     ctx.assumptions += [
         "date/time types are outside the grammar (excluded by the property)",
         "runtype 0.3.5 `<=` on canonical types, typing's normalisation of Union/Optional/Literal and pydantic 1.10 validation are modelled for the grammar and compared on every case",
@@ -687,6 +863,39 @@ def _subterms(t):
     return out
 
 
+def _f12_only(a, b, flag):
+    """The two types have the same structure and differ only in leaves `qhash` (left) where the
+    right one has `hash`: a witness for the pair is then the known pair QualHashsumStr / HashsumStr
+    inside containers. flag[0] is set when such a leaf is met."""
+    if a == ["qhash"] and b == ["hash"]:
+        flag[0] = True
+        return True
+    if a == b:
+        return True
+    if a[0] == b[0] and a[0] in ("opt", "list", "set", "ann"):
+        return _f12_only(a[1], b[1], flag)
+    if b[0] == "opt" and a[0] != "opt":
+        return _f12_only(a, b[1], flag)
+    if b[0] == "union":
+        for x in (a[1] if a[0] == "union" else [a]):
+            if x in b[1]:
+                continue
+            if x == ["qhash"] and ["hash"] in b[1]:
+                flag[0] = True
+                continue
+            return False
+        return True
+    return False
+
+
+def _is_f12(a, b):
+    flag = [False]
+    try:
+        return bool(_f12_only(a, b, flag) and flag[0])
+    except Exception:
+        return False
+
+
 def signature(case, detail):
     if not isinstance(detail, dict):
         return "%s:%s" % (ID, str(detail)[:40])
@@ -695,7 +904,7 @@ def signature(case, detail):
         return "%s:%s:%s" % (ID, kind, detail.get("type"))
     if kind == "subtype-unsound":
         a, b = detail.get("sub"), detail.get("base")
-        if a == ["qhash"] and b == ["hash"]:
+        if _is_f12(a, b):
             return F12_SIG
         return "%s:subtype-unsound:%s<%s" % (ID, G.ty_str(a), G.ty_str(b))
     if kind == "child-instance-rejected-by-parent":
@@ -709,9 +918,11 @@ def signature(case, detail):
             consts_p = [k for k, _ in G.eff_consts(fam, pa)]
             if flds and all(k in consts_c and k not in consts_p for k in flds) and G.eff_extra(fam, pa) == "forbid":
                 return CONST_FORBID_SIG
+            if flds and all(k in ft_c and k not in ft_p and k not in consts_p for k in flds) and G.eff_extra(fam, pa) == "forbid":
+                return NEW_FIELD_FORBID_SIG
             if len(flds) == 1 and flds[0] in ft_c and flds[0] in ft_p:
                 a, b = ft_c[flds[0]], ft_p[flds[0]]
-                if a == ["qhash"] and b == ["hash"]:
+                if _is_f12(a, b):
                     return F12_SIG
                 return "%s:override-unsound:%s<%s" % (ID, G.ty_str(a), G.ty_str(b))
         except Exception:
